@@ -329,6 +329,19 @@ func (e *Exec) havocLoop(st *State, h *ssa.BasicBlock, li *loopInfo) {
 					}
 					continue
 				}
+				if bi, ok := x.Call.Value.(*ssa.Builtin); ok && bi.Name() == "delete" && len(x.Call.Args) == 2 {
+					// delete(m, k) writes the map only
+					if mt, ok := x.Call.Args[0].Type().Underlying().(*types.Map); ok {
+						if definedOutside(x.Call.Args[0], li) {
+							mv := e.val(st, x.Call.Args[0])
+							mv.Typ = x.Call.Args[0].Type()
+							e.havocAbstract(st, "map", mv)
+						} else {
+							e.havocMapType(st, mt)
+						}
+						continue
+					}
+				}
 				if e.callMayWriteHeap(&x.Call) {
 					wholeHeap = true
 				}
